@@ -32,7 +32,7 @@ SPECS['C04'] = {
     'technique': 'explicit-state enumeration of every streaming context\'s (fill, length) automaton and of the length/IV/tag/AAD grids on the real code; reference model = OpenSSL + generic mode references validated on AES against OpenSSL',
     'claim': 'For every streaming cipher context every (buffer fill, update length) pair, in place and with guarded exact-size outputs, and for the one-shot calls every length/IV-length/tag-length/AAD-length combination of the stated grids, the bytes equal the independent reference and decrypt(encrypt) is the identity; exhaustive over that alphabet only.',
     'trusted': 'OpenSSL 3.0 (SM4-ECB/CBC/CTR/OFB/CFB, AES all modes, ChaCha20); ref/modes_ref.c for SM4-GCM/CCM/XTS/CFB-s/CTR32 (self-tested on AES vs OpenSSL on the same grids); ZUC: specification known answers and the bit-level EEA3/EIA3 definition only (no independent ZUC core); GB/T XTS tweak doubling pinned by the reference implementation of GHASH-style doubling',
-    'rule': 'streams: 14 SM4/ZUC streaming contexts x 3 keys x every (fill in [0,unit), len in [0,50)) two-step feeding + finish, NULL-output size query before every call, canary-guarded output of exactly the reported size, in-place subset; CFB all s=1..16, XTS data units {16,17,31,32,48}, GCM tag 12..16; one-shot: 63 lengths x 3 keys x {CBC, CTR/CTR32 with 7 wrap counters, OFB, CFB s=1..16, CBC-MAC all cuts, XTS}; GCM: IV length 0..65 x AAD 0..33,4096 x 8 message lengths x tag lengths; CCM: nonce 6..14 x tag 2..18 x 11 AAD lengths (incl. 0xfeff/0xff00/0xff01) x 12 lengths (to 65537); AES-128/192/256 block+CBC, AES-CTR/GCM; ChaCha20 counters; ZUC-128/256 structure, EEA3/EIA3 bit lengths 1..300. distinct = parameter tuple; non-trivial = a definite reference value exists.',
+    'rule': 'streams: 14 SM4/ZUC streaming contexts x 3 keys x every (fill in [0,unit), len in [0,50)) two-step feeding + finish, NULL-output size query before every call, canary-guarded output of exactly the reported size, in-place subset; CFB all s=1..16, XTS data units {16,17,31,32,48}, GCM tag 12..16; one-shot: 63 lengths x 3 keys x {CBC, CTR/CTR32 with 7 wrap counters, OFB, CFB s=1..16, CBC-MAC all cuts, XTS}; GCM: IV length 0..65 x AAD 0..33,4096 x 8 message lengths x tag lengths; CCM: nonce 6..14 x tag 2..18 x 11 AAD lengths (incl. 0xfeff/0xff00/0xff01) x 12 lengths (to 65537); AES-128/192/256 block+CBC, AES-CTR/GCM; ChaCha20 counters; ZUC-128/256 structure, specification test set 4 incl. z2000, 2^16-word agreement of keyword / bulk keystream / byte encryptor (one-shot and streamed), EEA3/EIA3 bit lengths 1..300; GCM counter wrap: 16-byte IVs constructed for 9 chosen J0 tails x 3 keys x {SM4, AES}. distinct = parameter tuple; non-trivial = a definite reference value exists.',
     'bound': {'quick': 'builds fast + small(subset by deadline)', 'thorough': 'builds fast, asan, small, aesni, avx2; full CCM grid for all 3 keys'},
     'assumptions': ['3 keys / IVs per cipher, one plaintext pattern', 'OpenSSL correctness'],
     'quick': [J('c04', 'fast', srcs=MREF), J('c04', 'asan', srcs=MREF, shards=8, deadline=100), J('c04', 'small', srcs=MREF, deadline=100), J('c04', 'aesni', srcs=MREF, cpu=['aes'], deadline=100), J('c04', 'avx2', srcs=MREF, cpu=['avx2'], deadline=100)],
@@ -45,7 +45,7 @@ SPECS['C05'] = {
     'technique': 'exhaustive single-fault enumeration (every bit of nonce/AAD/ciphertext/tag, every truncation, one-byte extensions) x every 2-cut chunking of the streaming decryptors, on the real code',
     'claim': 'For every sealed message of the grid, every single-bit modification of nonce, AAD, ciphertext and tag, every truncation and the one-byte extensions are reported as failure by the one-shot call or by *_decrypt_finish, for every way of splitting the stream in two; the untouched message opens in every chunking.',
     'trusted': 'the library\'s own encryptors produce the sealed messages (their conformance is C04); exact-size heap inputs + ASan catch over-reads',
-    'rule': 'big-aad block: AAD lengths {0xfeff,0xff00,0xff01,0xffff,0x10000,0x10001} x 4 schemes (untouched, 64 end-of-AAD bit flips, +-1 byte, length-prefix confusion); schemes {SM4-GCM, AES-GCM, SM4-CCM one-shot; SM4-GCM, SM4-CBC+SM3-HMAC, SM4-CTR+SM3-HMAC streaming} x message lengths {0,1,17} (thorough {0,1,15,16,17,33}) x AAD {0,1,20} x tag lengths (quick 12,16 / CCM 4,10,16; thorough all) x nonce lengths (thorough); per sealed message: all bit flips of every field, all prefixes, 3 one-byte extensions at both ends, AAD +-1 byte; streaming: every 2-cut. distinct = (scheme, parameters, fault, cut); every fault is non-trivial (expected verdict: reject).',
+    'rule': 'big-aad block: AAD lengths {0xfeff,0xff00,0xff01,0xffff,0x10000,0x10001} x 4 schemes (untouched, 64 end-of-AAD bit flips, +-1 byte, length-prefix confusion); schemes {SM4-GCM, AES-GCM, SM4-CCM one-shot; SM4-GCM, SM4-CBC+SM3-HMAC, SM4-CTR+SM3-HMAC streaming} x message lengths {0,1,17} (thorough {0,1,15,16,17,33}) x AAD {0,1,20,15,16,17,32} x tag lengths (quick 12,16 / CCM 4,10,16; thorough all) x nonce lengths (thorough); per sealed message: all bit flips of every field, all prefixes, 3 one-byte extensions at both ends, AAD +-1 byte; streaming: every 2-cut. distinct = (scheme, parameters, fault, cut); every fault is non-trivial (expected verdict: reject).',
     'bound': {'quick': '1 fault, 2 chunks', 'thorough': '1 fault, 2 chunks, full parameter grid'},
     'assumptions': ['one key/nonce/plaintext per scheme', 'multi-bit forgeries are out of scope'],
     'quick': [J('c05', 'asan', srcs=MREF), J('c05', 'fast', srcs=MREF)],
@@ -85,7 +85,7 @@ SPECS['C02'] = {
     'technique': 'bounded exhaustive enumeration (all 255 plaintext lengths x keys x contents x interfaces, every 2-cut of short messages, complete 1-deviation neighbourhood of DER ciphertexts, C1 substitution set, all ordered key pairs for ECDH) on the real code; reference model = OpenSSL BN/EC equations + OpenSSL EVP SM2',
     'claim': 'For the key set D and scripted nonces every encryption interface produces exactly the GB/T 32918.4 ciphertext of the nonce drawn for every plaintext length 1..255, it decrypts through every interface and under OpenSSL (and vice versa); every bit flip, truncation, extension, non-canonical form and C1 substitution of a valid ciphertext is accepted iff the reference accepts; ECDH equals d_A*d_B*G for all ordered key pairs and refuses invalid peer shares.',
     'trusted': 'OpenSSL BN/EC/SM3/X9.63-KDF and EVP SM2; harness strict-DER reader/writer (der.h); scripted entropy shim',
-    'rule': 'roundtrip: 5 keys x lengths 0..256 x 3 contents x {sm2_encrypt, sm2_do_encrypt, do_decrypt, sm2_decrypt, streaming decrypt, streaming encrypt in every 2-cut for len<=40, fixlen x3, OpenSSL interop both ways}; malformed: per (key,length in {1,16,255}) every bit flip, every prefix, one-byte extensions, 7 C1 substitutions, 10 non-canonical forms, 4 wrong keys; ecdh: 5x5 ordered pairs x {do_ecdh, sm2_ecdh uncompressed/compressed, symmetry}, 8 invalid peer shares. distinct = parameter tuple / offered byte string.',
+    'rule': 'roundtrip: 5 keys x lengths 0..256 x 3 contents x {sm2_encrypt, sm2_do_encrypt, do_decrypt, sm2_decrypt, streaming decrypt, streaming encrypt in every 2-cut for len<=40, fixlen x3, OpenSSL interop both ways}; malformed: per (key,length in {1,16,255}) every bit flip, every prefix, one-byte extensions, 7 C1 substitutions, 10 non-canonical forms, 4 wrong keys, C3 with a zero first / last octet (nonce search) offered with that octet cut / a zero added, the maximum-size ciphertext (366 bytes, nonce search) with 1..100 trailing bytes; ecdh: 5x5 ordered pairs x {do_ecdh, sm2_ecdh uncompressed/compressed, symmetry}, 8 invalid peer shares. distinct = parameter tuple / offered byte string.',
     'bound': {'quick': 'neighbourhoods for key typical (3 lengths) and d=1 (1 length)', 'thorough': 'all keys x 3 lengths'},
     'assumptions': ['keys/nonces/contents outside the sets not covered; the KDF-all-zero retry cannot be forced'],
     'quick': [J('c02', 'fast', srcs=SREF), J('c02', 'asan', srcs=SREF, deadline=110)],
@@ -98,7 +98,7 @@ SPECS['C12'] = {
     'technique': 'exhaustive crossing of a coordinate/scalar value alphabet with every import container and every octet prefix byte on the real code; reference model = BN curve-membership predicate',
     'claim': 'Every point/key import path accepts a value from the alphabet only if the coordinates are below p and satisfy the curve equation (never infinity as a key or ECDH share), the imported object equals the input, private scalars are accepted iff in [1,n-2], a private-key container with a mismatching embedded public key is refused, and compress/decompress is the identity on k*G for k in 1..16, n-1.',
     'trusted': 'OpenSSL BN for the curve predicates (SM2 explicit parameters; SM9 G1 y^2=x^3+5 and the G2 twist equation, self-tested on the generators)',
-    'rule': 'values: {valid, negated, y+1, (0,0), x=p, y=p, x/y=2^256-1, small x, x+p, y+p, (1,0), (0,1)} x containers {from_bytes, from_octets, point DER, SubjectPublicKeyInfo DER and PEM, certificate, request, ECPrivateKey and PKCS#8 embedded public key, SM2 ciphertext C1, ECDH peer share}; octet strings of lengths {1,33,64,65,66} x all 256 prefix bytes; 11 scalars around 0, n-2..n+1, p, 2^255, 2^256-1 through set_private_key and ECPrivateKey DER; SM9 G1 (8) and G2 (9) octet variants. distinct = (container, value).',
+    'rule': 'values: {valid, negated, y+1, (0,0), x=p, y=p, x/y=2^256-1, small x, x+p, y+p, (1,0), (0,1)} x containers {from_bytes, from_octets, point DER, SubjectPublicKeyInfo DER and PEM, certificate, request, ECPrivateKey and PKCS#8 embedded public key, SM2 ciphertext C1, ECDH peer share}; octet strings of lengths {1,33,64,65,66} x all 256 prefix bytes; 11 scalars around 0, n-2..n+1, p, 2^255, 2^256-1 through set_private_key and ECPrivateKey DER; SM9 G1 (8) and G2 (9) octet variants, coordinate+p aliases of [k]P1 / [k]P2 (k = 1..60) also inside the master public key container; TLS ServerKeyExchange / ClientKeyExchange / TLS 1.3 key shares as point containers; SubjectPublicKeyInfo bit-string length x prefix grid. distinct = (container, value).',
     'bound': {'quick': 'whole alphabet', 'thorough': 'whole alphabet, + asan and amd64 builds'},
     'assumptions': ['points outside the value alphabet are not covered', 'TLS key-exchange containers are exercised by the handshake checks (C09/C10)'],
     'quick': [J('c12', 'fast', srcs=SREF), J('c12', 'asan', srcs=SREF)],
@@ -137,7 +137,7 @@ SPECS['C15'] = {
     'technique': 'exhaustive enumeration of field grids for issued certificates / requests / CRLs, the full key x signer-ID verification matrix, every single-bit modification of issued objects, all serial queries against all CRL subsets, on the real code',
     'claim': 'Every object issued over the field grid parses back to exactly the supplied fields; it verifies iff the issuer key and the signer ID it was issued under are used (4 IDs incl. prefix / NUL-extended forms); no single-bit modification of a certificate, request or CRL still verifies; CRL lookup reports a serial revoked exactly when listed, for all subsets of prefix-related serials.',
     'trusted': 'the library parses its own output (field comparison is against the values handed to the issuing call); SM2 signature soundness is C01',
-    'rule': 'certs: serial lengths {1,2,8,19,20} x top bit x 5 validity windows (now, 2049, 2049/2050 straddle, 2050, 2100) x 8 extension sets x 2 signer IDs: all fields compared, UTCTime/GeneralizedTime choice, 2x4 verification matrix, every bit flip for selected objects (thorough: all); requests: 4 signer IDs x 3 names, ID matrix, bit flips; CRLs: 16 subsets of 4 prefix-related serials x 2 IDs, 7 serial queries each, fields, matrix, bit flips. distinct = (object parameters, verification attempt / flipped bit / query).',
+    'rule': 'certs: serial lengths {1,2,8,19,20} x top bit x 5 validity windows (now, 2049, 2049/2050 straddle, 2050, 2100) x 8 extension sets x 2 signer IDs: all fields compared, UTCTime/GeneralizedTime choice, 2x4 verification matrix, every bit flip for selected objects (thorough: all); requests: 4 signer IDs x 3 names, ID matrix, bit flips, subject key different from the signing key; extension sizes: dNSName lengths 1..8, 100..140, 235..270, 300 in subjectAltName / issuerAltName (block well-formed, every extension found again); CRLs: 16 subsets of 4 prefix-related serials x 2 IDs, 7 serial queries each, fields, matrix, bit flips. distinct = (object parameters, verification attempt / flipped bit / query).',
     'bound': {'quick': 'grid thinned to ~1/3 for certificates; bit flips on 4 certificates, 2 requests, 4 CRLs', 'thorough': 'full grid, bit flips on every object'},
     'assumptions': ['multi-bit modifications out of scope'],
     'quick': [J('c15', 'fast', srcs=['harness/venv.c']), J('c15', 'asan', srcs=['harness/venv.c'], deadline=110)],
@@ -150,7 +150,7 @@ SPECS['C16'] = {
     'technique': 'exhaustive enumeration of signer/recipient counts 1..4, key-object provenance, content lengths and every single-bit modification inside the fields the property names (located with the harness DER walker), on the real CMS code',
     'claim': 'For every signer set and recipient set of 1..4 parties, key objects obtained by generation / DER import / PEM import and the content-length set, signed, enveloped, encrypted and signed-and-enveloped messages round-trip; every single-bit change inside content, signature value, encrypted key, IV or ciphertext of a short message, a non-recipient key, a key/certificate mismatch and a zero-signer SignedData are refused.',
     'trusted': 'harness DER walker locates the named fields; bit flips outside those fields (e.g. inside embedded certificates, which SignedData does not sign) are unspecified and not judged',
-    'rule': 'sign-verify: signers 1..4 x 3 key origins x 7 content lengths {0,1,15,16,17,4096,65536}; all bit flips inside content/signature for content<=17; swapped signer keys; zero SignerInfos. envelop: recipients 1..4 x 7 lengths, each of the 4 parties x 3 key origins tries to open, key/cert mismatch, all bit flips in own encrypted key / IV / ciphertext. encrypt/decrypt with wrong key and IV/ciphertext flips; set_data; sign-and-envelop signers x recipients x lengths. distinct = (parties, origin, length, flipped bit).',
+    'rule': 'sign-verify: signers 1..4 x 3 key origins x 7 content lengths {0,1,15,16,17,4096,65536}; all bit flips inside content/signature for content<=17; swapped signer keys; zero SignerInfos. envelop: recipients 1..4 x 7 lengths, each of the 4 parties x 3 key origins tries to open, key/cert mismatch, all bit flips in own encrypted key / IV / ciphertext. encrypt/decrypt with wrong key and IV/ciphertext flips; set_data; sign-and-envelop signers x recipients x lengths, all single-bit modifications of short signed-and-enveloped messages (accepted => signed type and content returned); 5 look-alike recipient pairs x both orders. distinct = (parties, origin, length, flipped bit).',
     'bound': {'quick': 'large contents only for <=2 parties; sign+envelop for signers+recipients<=4', 'thorough': 'full cross product'},
     'assumptions': ['more than 4 parties and 2-bit changes are not covered'],
     'quick': [J('c16', 'fast', srcs=['harness/venv.c']), J('c16', 'asan', srcs=['harness/venv.c'], deadline=110)],
@@ -168,7 +168,7 @@ SPECS['C06'] = {
     'technique': 'exhaustive <=1-deviation mutation enumeration of library-built objects (byte substitutions from a boundary alphabet at every offset, every truncation, every length-field / tag rewrite of every TLV found by a DER walker, algebraic boundary values in 32-byte fields, capacity +-1 lists) fed in exact-size heap blocks to every decoder / verifier / printer under ASan+UBSan(bounds), and of every handshake record of live handshakes over vnet with a peer-state guard; one guarded implementation run per mutant',
     'claim': 'No mutant of the enumerated neighbourhood of any seed makes any consumer read or write outside the presented block or its own buffers, abort, or hang; a peer that alters any byte of any handshake record, or sends over-long lists, never crashes the endpoint nor changes its configured CA certificates, chain or keys.',
     'trusted': 'ASan redzones + UBSan bounds/null/object-size as the memory oracle; exact-size malloc blocks (no slack); guarded child with per-case timeout as abort/hang oracle',
-    'rule': 'c06a: per seed (certificate, chain, CRL, CSR, 5 CMS types, PKCS#8 plain/encrypted, SPKI, ECPrivateKey, SM2/SM9 signatures, ciphertexts and keys, PEM, hex/base64/URI/HTTP text, handshake records of honest TLCP/TLS1.2 runs): 9 substitutions x every offset + every truncation + per TLV header 11 length encodings + 14 tags + 9 boundary values; capacity block. c06b: per configuration and handshake record: substitutions at every payload offset (quick: thinned), length-field rewrites, oversize certificate lists, with state guard.',
+    'rule': 'c06a: per seed (certificate, chain, CRL, CSR, 5 CMS types, PKCS#8 plain/encrypted, SPKI, ECPrivateKey, SM2/SM9 signatures, ciphertexts and keys, PEM, hex/base64/URI/HTTP text, handshake records of honest TLCP/TLS1.2 runs): 9 substitutions x every offset + every truncation + per TLV header 11 length encodings + 14 tags + 9 boundary values + tree operator (every element of every constructed value, also inside OCTET/BIT STRING wrappers, emitted r times, r in {0,2,3,7,8,9,16,17,32,33,64,65,128,129}, lengths re-encoded); password-protected SM2 / SM9 key files (PBKDF2 cut to 64 iterations for writer and reader); cross-type block (every seed to every other consumer); capacity block (OID arcs, SEQUENCE OF INTEGER, tag names, certificate lists around 2048 bytes, cipher-suite / session-id sizes). ASan+UBSan and MSan builds. c06b: per configuration and handshake record: substitutions at every payload offset (quick: thinned), every consistent truncation of plaintext handshake messages, oversize certificate lists, hello-extension rewriting (delete / repeat 2..200 times / cut every extension, shrink every inner vector, lengths re-encoded), the same substitutions and truncations inside ENCRYPTED TLS 1.3 handshake messages (malicious peer through a wrap of sm4_gcm_encrypt), crafted records after the handshake, with state guard; fast, ASan and MSan builds.',
     'bound': {'quick': '1 mutation, offsets thinned (step 3) for seeds > 2500 bytes', 'thorough': '1 mutation at every offset'},
     'assumptions': ['two simultaneous mutations out of scope', 'file / socket plumbing of the command-line tools not covered'],
     'quick': [J('c06a', 'asan', srcs=TLSSRC, libs=PBWRAP, deadline=150), J('c06a', 'msan', srcs=TLSSRC, libs=PBWRAP, deadline=150),
@@ -199,7 +199,7 @@ SPECS['C10'] = {
     'technique': 'exhaustive single-fault enumeration on the real handshakes over vnet: every (record, payload offset, bit) flip of every handshake record plus per-record drop / duplicate / swap / truncate / inject faults (thorough: all pairs of record-level faults), one forked implementation run per fault',
     'claim': 'For 3 protocols x {server-auth, mutual}: under every single-bit modification of any handshake record payload and every per-record drop, duplication, swap with the next record, truncation (1 byte / half / all but one) and injection (copy of first record, copy of itself, alert, empty handshake record, CCS), client and server never both complete and no completed party accepts application data afterwards; the honest run completes and exchanges data (non-vacuity).',
     'trusted': 'vnet record-aware adversary; endpoints deterministic under scripted entropy/clock',
-    'rule': 'faults enumerated from the record log of the honest run of each of the 6 configurations (7-13 records, 1.2-2.5 KB payload => 9.5-20 k bit flips each, ~87 k in total) + 11 record-level faults per record; thorough adds ordered pairs (drop|dup|swap) x (any record-level fault). distinct = (configuration, fault); every fault is non-trivial (expected verdict: detected).',
+    'rule': 'faults enumerated from the record log of the honest run of each of the 9 configurations (3 protocols x {server-auth, mutual, mutual with two trusted client CAs}; 7-13 records, 1.2-2.5 KB payload => 9.5-20 k bit flips each, ~100 k in total) + 11 record-level faults per record; thorough adds ordered pairs (drop|dup|swap) x (any record-level fault). distinct = (configuration, fault); every fault is non-trivial (expected verdict: detected).',
     'bound': {'quick': '1 fault', 'thorough': '1 fault + 2 record-level faults'},
     'assumptions': ['record header bytes are covered under C06/C11', 'adversary without private keys'],
     'quick': [J('c10', 'fast', srcs=TLSSRC)],
@@ -239,7 +239,7 @@ SPECS['C17'] = {
     'technique': 'exhaustive enumeration of operand / parameter alphabets through the real SM9 code, every result compared with a big-integer reference model (py/sm9_model.py: plain polynomial Fp12 = Fp[w]/(w^12+2), definition-level R-ate pairing, validated on the GM/T 0044.5 worked example) run as a co-process; scripted nonces make signatures, ciphertexts and exchanged keys exactly predictable; complete single-bit neighbourhoods of signatures and ciphertexts for the negative clauses',
     'claim': 'Over the stated alphabets every Fp, Fn, Fp2, Fp4, Fp12, G1, G2 operation returns the model value; e([a]P1,[b]P2) equals the model pairing, equals e(P1,P2)^(ab), is != 1 and has order N for all scalar pairs of the tier; H1 / hash-to-range agree; extracted keys, signatures (scripted r), ciphertexts, KEM keys and exchanged keys equal the model values, honest signatures verify and ciphertexts round-trip; another identity, another message, another master key, a negated S and every single-bit change of signature or ciphertext are rejected; both exchange parties derive the same key; key files of secrets with leading zero octets read back.',
     'trusted': 'py/sm9_model.py (validated by its --selftest on the standard\'s worked example, shares no code or algorithmic structure with src/sm9_z256.c); Python hashlib SM3 (OpenSSL)',
-    'rule': 'fp: 256 (thorough 625) limb-alphabet values + p-3..p-1, (p-1)/2, (p+1)/2: all pairs x {add,sub,mul}, all x {neg,dbl,tri,haf,sqr,inv} and x 17 exponents; fn subset grid; hash-to-range 6 x 17 Ha values; fp2: 64 elements, pairs x {add,sub,mul,mul_u,div}, 10 unary ops, mul_fp; fp4: 24 shapes, all pairs x 4 ops, 11 unary, mul_fp, mul_fp2; fp12: 36 shapes, pairs x 3 ops, 9 unary ops incl. 4 Frobenius maps, pow; G1/G2: 6 points (incl. infinity, -P, [N-1]P) all pairs add/sub/dbl, 17 scalars (0,1,2,3,2^128,2^255,2^256-1,N-2..N+2,...) x points mul / mul_generator; pairing: 5x5 (thorough 7x7) scalar pairs; schemes: master secrets {1,2,N-1,example} x identity lengths {1,2,5,31,32,33,64,8191} x message lengths {0,1,20,55,56,63,64,65,119,128,1000} x nonces {1,2,N-1,example,typical} (full cross on the short axes), plaintexts {0,1,31,32,33,100,255}, key lengths {1,16,32,33,64,100}; all bit flips of signature and ciphertext DER for the short cases.',
+    'rule': 'fp: 256 (thorough 625) limb-alphabet values + p-3..p-1, (p-1)/2, (p+1)/2: all pairs x {add,sub,mul}, all x {neg,dbl,tri,haf,sqr,inv} and x 17 exponents; fn subset grid; hash-to-range 6 x 17 Ha values; fp2: 64 elements, pairs x {add,sub,mul,mul_u,div}, 10 unary ops, mul_fp; fp4: 24 shapes, all pairs x 4 ops, 11 unary, mul_fp, mul_fp2; fp12: 36 shapes, pairs x 3 ops, 9 unary ops incl. 4 Frobenius maps, pow; G1/G2: 6 points (incl. infinity, -P, [N-1]P) all pairs add/sub/dbl, 17 scalars (0,1,2,3,2^128,2^255,2^256-1,N-2..N+2,...) x points mul / mul_generator; pairing: 5x5 (thorough 7x7) scalar pairs; schemes: master secrets {1,2,N-1,example} x identity lengths {1,2,5,31,32,33,64,8191} x message lengths {0,1,20,55,56,63,64,65,119,128,1000} x nonces {1,2,N-1,example,typical} (full cross on the short axes), plaintexts {0,1,31,32,33,100,255}, key lengths {1,16,32,33,64,100}; all bit flips, trailing bytes and truncation of signature and ciphertext DER for the short cases; Ha = k(N-1)+d near-multiples; key files of secrets with leading zero octets.',
     'bound': {'quick': '4-limb alphabet over 4 limb values; 5x5 pairings', 'thorough': '5 limb values; 7x7 pairings; bit-flip neighbourhoods for every nonce'},
     'assumptions': ['values outside the alphabets are not covered', 'the model is the specification of "integer mathematics"; SM9 encryption uses the library\'s HMAC-SM3 tag (the standard\'s MAC is SM3(C2||K2): recorded as an observation, not judged)'],
     'quick': [J('c17', 'fast', srcs=TLSSRC, libs=['-lpthread', '-ldl', '-lm'], deadline=150)],
@@ -252,7 +252,7 @@ SPECS['C18'] = {
     'technique': 'exhaustive entropy-fault enumeration: for every randomised operation and every handshake role, one implementation run per entropy-draw index with that draw failing, plus stream-pair (A/A, A/B) and long same-stream sequence runs, under the scripted getentropy shim',
     'claim': 'For 22 randomised API operations and the 12 handshake roles (3 protocols x {server-auth, mutual} x {client, server}): with the draw at every index failing the operation reports failure (the handshake endpoint does not complete and emits no further handshake / CCS / application record); equal streams give byte-identical output and different streams different ephemeral values; 200 (thorough 1000) repeated signatures / encryptions in one stream never reuse a nonce.',
     'trusted': 'libc getentropy is the only entropy gateway (rand_bytes); per-thread scripted streams; for handshakes the record log of vnet',
-    'rule': 'ops: {sm2 keygen, sign, do_sign, sign_fixlen, streaming sign, encrypt, encrypt_fixlen, streaming encrypt, PKCS#8 encrypt, certificate / request / CRL signing, CMS sign / envelop, TLS CBC record IV, SM9 master keygen x2, sign, encrypt, KEM, exchange step 1A / 1B} x draw index 0..N-1 (N measured per operation) + A/A + A/B; sequences: 4 repeated-operation runs; handshakes: 6 configurations x 2 roles x every draw index (35-70 draws per role) + A/A + A/B transcripts. distinct = (operation or role, failing draw index).',
+    'rule': 'ops: {sm2 keygen, sign, do_sign, sign_fixlen, streaming sign, encrypt, encrypt_fixlen, streaming encrypt, PKCS#8 encrypt, certificate / request / CRL signing, CMS sign / envelop, TLS CBC record IV, SM9 master keygen x2, sign, encrypt, KEM, exchange step 1A / 1B} x draw index 0..N-1 (N measured per operation) + A/A + A/B; sequences: 4 repeated-operation runs, 100 failing-draw positions x 110 streaming signatures on one context (continue after failure: every returned signature verifies, no nonce repeats); handshakes: 6 configurations x 2 roles x every draw index (35-70 draws per role) + A/A + A/B transcripts. distinct = (operation or role, failing draw index).',
     'bound': {'quick': '1 failing draw per run; sequences of 200', 'thorough': 'sequences of 1000'},
     'assumptions': ['a failing draw is modelled as getentropy returning -1 once; partial reads do not exist for getentropy'],
     'quick': [J('c18', 'fast', srcs=TLSSRC)],
@@ -266,7 +266,7 @@ SPECS['C19'] = {
     'technique': 'exhaustive enumeration of handshake executions (honest, every credential defect, per-record tampering, every entropy-draw failure on both roles) and a list of secret-handling API sequences incl. their failure modes; fd 1 and fd 2 captured per execution and searched for every secret of that execution',
     'claim': 'In the default build, for 6 handshake configurations x {honest, 6 credential defects per role, bit flip / drop / duplicate of each of the first 8 records per direction, failure of each of the first 72 entropy draws per role} and for the SM2 / PKCS#8 / CMS / SM9 secret-handling sequences (success, tampered input, wrong key, wrong password, entropy failure), no window of 8 bytes of any private key, password, plaintext, pre-master / master secret, key block, TLS 1.3 secret, traffic key or IV appears on standard output or standard error, raw or as hex.',
     'trusted': 'secrets of the handshakes are captured at derivation by link-time wrapping of tls_prf / hkdf_extract / hkdf_expand; only fd 1 and fd 2 are observed (the library writes diagnostics nowhere else)',
-    'rule': 'per execution: secrets = private scalars, application plaintext, PRF/HKDF inputs and outputs (Finished verify_data excluded), passwords; search = raw 8-byte windows and 16-hex-digit windows over the separator-stripped, case-folded capture. distinct = (configuration, variant).',
+    'rule': 'per execution: secrets = private scalars, application plaintext, PRF/HKDF inputs and outputs (Finished verify_data excluded), passwords; search = raw 8-byte windows and 16-hex-digit windows over the separator-stripped, case-folded capture. executions: handshakes (honest, 6 credential defects, 48 record faults, every failing entropy draw, 81 post-handshake operation pairs per protocol), 7 API scenarios, key-file import failure paths (5 container kinds x {consistent, spliced public point} x every 1-byte substitution (3 values) and truncation). distinct = (configuration, variant).',
     'bound': {'quick': 'whole menu', 'thorough': 'whole menu'},
     'assumptions': ['explicit print / export calls are not invoked', 'secrets shorter than 8 bytes are not searched'],
     'quick': [J('c19', 'fast', srcs=TLSSRC, libs=WRAPS)],
@@ -280,7 +280,7 @@ SPECS['C20'] = {
     'technique': 'stateless model checking of the real code under a controlled scheduler: every load/store of the (TSan-instrumented, runtime-less) library reports to the harness, a footprint pass finds conflict granules (written by one task, touched by another / writable statics), and all schedules with at most k preemptions at task start, end, blocking and conflict-granule accesses are enumerated with a fixpoint on newly found conflicts; plus a separate free-running pass of the same task bodies under the real ThreadSanitizer',
     'claim': 'For every unordered pair (thorough: also triples of the six cheapest) of the 15 workload operations, each on its own objects and its own entropy stream, every schedule within the preemption bound gives each task exactly the outputs it produces alone; no memory granule is written by one task and accessed by another and no library static is written at all (conflict set empty => no data race on library state in any interleaving of these tasks); the free-running ThreadSanitizer pass reports no race and the same outputs.',
     'trusted': 'clang -fsanitize=thread instrumentation reports every library load/store (memcpy/memset/memmove through --wrap with -fno-builtin); sequential consistency; the hand-off scheduler; libc internals (stdio locks) are outside',
-    'rule': 'operations: hash (SM3, SHA-256, SHA-512), HMAC+PBKDF2, SM4 CBC/CTR/GCM, ZUC, SM2 keygen+sign+verify, SM2 encrypt+ECDH, X.509 sign+verify (+error path), CMS sign+verify+encrypt+decrypt, TLS record protect/unprotect (CBC, GCM), malformed-input decoding (error path), SM9 sign+verify, PKCS#8 encrypt/decrypt, TLCP / TLS 1.2 / TLS 1.3 handshake (client task + server task over a private pipe pair). distinct = (combination, schedule prefix); states = choice points + schedules, transitions = choice points.',
+    'rule': 'operations: hash (SM3, SHA-256, SHA-512), HMAC+PBKDF2, SM4 CBC/CTR/GCM, ZUC, SM2 keygen+sign+verify, SM2 encrypt+ECDH, X.509 sign+verify (+error path), CMS sign+verify+encrypt+decrypt, TLS record protect/unprotect (CBC, GCM), malformed-input decoding (error path), SM9 sign+verify, PKCS#8 encrypt/decrypt, TLCP / TLS 1.2 / TLS 1.3 handshake (client task + server task over a private pipe pair). every execution in a forked child (pristine statics); distinct = (combination, schedule prefix); states = choice points + schedules, transitions = choice points.',
     'bound': {'quick': 'pairs, preemptions <= 1 (0 for two concurrent handshakes = 4 tasks: all run-to-block schedules)', 'thorough': 'pairs with preemptions <= 2 (<= 1 when a handshake is involved), triples of cheap operations with preemptions <= 2'},
     'assumptions': ['at most 3 (4 with handshake pairs) tasks in the exhaustive part; 16-thread behaviour only through the free-running pass', 'weak-memory reorderings beyond what ThreadSanitizer models are out of scope'],
     'quick': [J('c20', 'vsched', srcs=TLSSRC, libs=VSWRAP, deadline=150), J('c20', 'tsan', srcs=TLSSRC, libs=['-lpthread', '-ldl', '-lm'], deadline=150)],
